@@ -111,6 +111,46 @@ impl Val {
         }
     }
 
+    /// Returns true if `val` has the shape of this exemplar.
+    ///
+    /// This is the runtime counterpart of the type checker's narrowing, for
+    /// values whose shape it could not infer: primitives must have the same
+    /// type, tuples must agree on the fields they share with one field set
+    /// containing the other, and for lists every element of one side must be
+    /// admitted by an element of the other. NULL is compatible with anything.
+    pub fn shape_admits(&self, val: &Val) -> bool {
+        match (self, val) {
+            (Val::Empty, _) | (_, Val::Empty) => true,
+            (Val::Constraint(cv), v) => cv.contains_self_ref() || cv.check(v),
+            (Val::Boolean(_), Val::Boolean(_))
+            | (Val::Int(_), Val::Int(_))
+            | (Val::Float(_), Val::Float(_))
+            | (Val::Str(_), Val::Str(_)) => true,
+            (Val::Tuple(efs), Val::Tuple(vfs)) => {
+                let has = |fs: &TupleFields, name: &Rc<str>| fs.iter().any(|(k, _)| k == name);
+                let e_in_v = efs.iter().all(|(k, _)| has(vfs, k));
+                let v_in_e = vfs.iter().all(|(k, _)| has(efs, k));
+                if !(e_in_v || v_in_e) {
+                    return false;
+                }
+                efs.iter().all(|(k, e)| {
+                    vfs.iter()
+                        .filter(|(vk, _)| vk == k)
+                        .all(|(_, v)| e.shape_admits(v))
+                })
+            }
+            (Val::List(es), Val::List(vs)) => {
+                if es.is_empty() || vs.is_empty() {
+                    return true;
+                }
+                vs.iter().all(|v| es.iter().any(|e| e.shape_admits(v)))
+                    || es.iter().all(|e| vs.iter().any(|v| e.shape_admits(v)))
+            }
+            (Val::Env(_), Val::Env(_)) => true,
+            _ => false,
+        }
+    }
+
     /// Returns true if called with a Val of the same type as itself.
     pub fn type_equal(&self, target: &Self) -> bool {
         enum_type_equality!(
